@@ -169,6 +169,9 @@ func checkC12(c *Ctx) {
 	// ---- C12-NUM
 	c.checkTokenArms()
 
+	// ---- C12-RING: the lexer's look-back ring (it decides whether +/- continues a float exponent)
+	c.checkLookbackRing()
+
 	// ---- C12-FLUSH
 	if lexerT := c.named("Lexer"); lexerT != nil {
 		before := len(c.obs)
@@ -266,5 +269,91 @@ func (c *Ctx) checkTokenArms() {
 		c.check(base == wantBase[k] && stripped[k] == wantStrip[k], "C12-NUM", "Parser.ParseExpression", "base of "+k, cc.Pos(),
 			"parsed with base "+wantBase[k]+" from "+wantStrip[k],
 			fmt.Sprintf("%s literals are parsed with base %q from %q (want base %s from %s): the literal denotes another number", k, base, stripped[k], wantBase[k], wantStrip[k]))
+	}
+}
+
+// checkLookbackRing: Lexer.priorRune is a ring written at priori, which then
+// advances modulo the ring length. A reader that looks k runes back must index
+// (priori - k) mod N: either priori-k, or priori-k+N on the negative side.
+func (c *Ctx) checkLookbackRing() {
+	ring := c.field("Lexer", "priorRune")
+	cur := c.field("Lexer", "priori")
+	if ring == nil || cur == nil {
+		c.undecided("C12-RING", "Lexer", "priorRune / priori", token.NoPos, "look-back ring fields not found")
+		return
+	}
+	arr, ok := ring.Type().Underlying().(*types.Array)
+	if !ok {
+		c.undecided("C12-RING", "Lexer", "priorRune", ring.Pos(), "the look-back buffer is no longer a fixed-size array")
+		return
+	}
+	N := arr.Len()
+	n := 0
+	for _, f := range c.zygoFuncs() {
+		eachInstr(f, func(b *ssa.BasicBlock, i int, in ssa.Instruction) {
+			ia, ok := in.(*ssa.IndexAddr)
+			if !ok {
+				return
+			}
+			fa, ok := ia.X.(*ssa.FieldAddr)
+			if !ok || faField(fa) != ring {
+				return
+			}
+			// written or read?
+			isWrite := false
+			for _, ref := range *ia.Referrers() {
+				if st, ok := ref.(*ssa.Store); ok && st.Addr == ssa.Value(ia) {
+					isWrite = true
+				}
+			}
+			n++
+			if isWrite {
+				_, isCur := loadOfField(ia.Index, cur)
+				c.check(isCur, "C12-RING", fnName(f), "writes the slot at the cursor", ia.Pos(), "the rune is stored at priori", "the look-back ring is written at an index other than the cursor")
+				return
+			}
+			// reader: every value the index can take is priori-k or priori-k+N for one k in 1..N-1
+			ks := map[int64]bool{}
+			okIdx := true
+			for _, leaf := range phiLeaves(ia.Index) {
+				if rem, ok := leaf.(*ssa.BinOp); ok && rem.Op == token.REM {
+					if m, isK := constIntOf(rem.Y); isK && m == N {
+						base, off := linearOf(rem.X)
+						if _, isCur := loadOfField(base, cur); isCur && off > 0 && off < N {
+							ks[N-off] = true
+							continue
+						}
+					}
+					okIdx = false
+					continue
+				}
+				base, off := linearOf(leaf)
+				// N + (priori - k) is represented as const + x
+				if bo, ok := base.(*ssa.BinOp); ok && bo.Op == token.ADD {
+					if kx, isK := constIntOf(bo.X); isK {
+						b2, o2 := linearOf(bo.Y)
+						base, off = b2, off+o2+kx
+					}
+				}
+				if _, isCur := loadOfField(base, cur); !isCur {
+					okIdx = false
+					continue
+				}
+				switch {
+				case off < 0 && -off < N:
+					ks[-off] = true
+				case off > 0 && off < N:
+					ks[N-off] = true
+				default:
+					okIdx = false
+				}
+			}
+			c.check(okIdx && len(ks) == 1, "C12-RING", fnName(f), "reads a fixed distance behind the cursor", ia.Pos(),
+				fmt.Sprintf("the index is (priori - k) modulo %d for a single k", N),
+				fmt.Sprintf("the look-back index is not (priori - k) modulo %d for a single k on every path: near the wrap-around the lexer looks at the wrong rune, so whether a + or - continues a float exponent depends on the position of the literal in the text", N))
+		})
+	}
+	if n < 2 {
+		c.undecided("C12-RING", "Lexer", "ring accesses", token.NoPos, fmt.Sprintf("only %d accesses of the look-back ring found", n))
 	}
 }
